@@ -340,6 +340,11 @@ def anyfiles(tier):
         out.append((f"long:{n}", b"".join(body)))
         out.append((f"long:{n}+tail", b"".join(body) + b"\x08\x64"))
         out.append((f"long:{n}+head-garbage", b"\x00" + b"".join(body)))
+    # byte-for-byte identical packets (fill packets, a counter that never moves or wraps): rows are per packet, not per distinct content
+    for n in (2, 10, 11, 12, 16):
+        out.append((f"same:{n}", u[2] * n))
+    out.append(("wrap:12", b"".join(framing.mk_packet(bytes([0x30 + (i % 8)]), apid=77, seqcount=i % 8) for i in range(12))))
+    out.append(("wrap:13", b"".join(framing.mk_packet(b"\x01", apid=78, seqcount=i % 5) for i in range(13))))
     # one maximum-size packet between two small ones
     big = framing.mk_packet(bytes((i * 7 + 1) & 0xFF for i in range(65536)), apid=1234, seqcount=77)
     out.append(("maxsize", u[2] + big + u[0]))
